@@ -74,6 +74,7 @@ def worker(job):
         mod = load_sidecar(pid)
         vr = Verifier(repo, HERE)
         vr.register(getattr(mod, 'CONTRACTS', []))
+        vr.register(getattr(mod, 'ASSUMED', []))       # contracts used modularly but not discharged here
         for m in getattr(mod, 'USES', []):
             vr.register(importlib.import_module(m).CONTRACTS)
         if kind == 'contract':
@@ -353,6 +354,9 @@ def main():
                 if rep['reach'].get(nm, 0) == 0:
                     faults.append(f'vacuous: clause {nm} was never reached')
 
+    for c in getattr(mod, 'ASSUMED', []):
+        functions.append({'name': c.name, 'target': c.target, 'class': 'ASSUMED-CONTRACT (' + c.klass + ')',
+                          'reason': c.notes or 'contract assumed at call sites; not discharged deductively'})
     for c in getattr(mod, 'BOUNDED_FUNCTIONS', []):
         functions.append({'name': c.name, 'target': c.target, 'class': 'BOUNDED',
                           'reason': c.notes or 'outside the reach of the SMT back ends; bounded stand-in only'})
